@@ -11,11 +11,15 @@
                                      a value dump (same syntax as the input), `ERR` or `UNMODELLED`
                            tp tpp = Ser.ser_toml_root, ep epp doc = Ser.ser_edit_root (read back by De.de_value),
                            val = Ser.tv_ser, tab = Ser.tv_ser_table (read back by De.tv_de).
+     routes <type> <doc> <val> <tree>      (C13) every decoding route on the TREE the two texts were rendered from
+                           (lib/props/c13.py passes it as a fourth argument; the harness reads the texts)
+     routes_ser <type> <value>             (C13) the same on the trees toml::to_string / toml::ser::ValueSerializer build
+     tryfrom <type> <value>                (C13) Value::try_from / Table::try_from against the tree of the serialized text
      consts                the reserved names the model assumes (compared with the crates' constants)
      fidelity <n>          `-` (a self-check of the Rust harness; nothing to model)
    `-` is also the answer for a type outside the modelled universe (the untyped `toml::Value` leaf). *)
 From TV Require Import Base.Prelude Base.Utf8 Model.Datetime Model.DatetimeStd Model.SerNum
-  Spec.SerdeData Model.Ser Model.De Model.SerFmt Extract.Show.
+  Spec.SerdeData Model.Ser Model.De Model.SerFmt Model.SerdeRoutes Extract.Show.
 Require Import String.
 
 (* ---- tokens ---- *)
@@ -290,6 +294,97 @@ Definition cmd_typed (tys vals : bytes) : bytes :=
   | _, _ => str "BADCASE"
   end.
 
+(* ---- C13 ---- *)
+Fixpoint parse_tv (fuel : nat) (toks : list bytes) : pres tomlval :=
+  match fuel with
+  | O => PBad
+  | S f =>
+    match toks with
+    | [] => PBad
+    | tok :: r =>
+      match tok with
+      | [] => PBad
+      | h :: rest =>
+        if byte_eqb h "S"%byte then POk (VStr (unhex rest)) r
+        else if byte_eqb h "I"%byte then POk (VInt (parse_Z rest)) r
+        else if byte_eqb h "D"%byte then POk (VFloat (hex_value_acc 0 rest)) r
+        else if byte_eqb h "B"%byte then POk (VBool (is rest "1")) r
+        else if byte_eqb h "X"%byte then
+          match std_from_str (unhex rest) with Some d => POk (VDatetime d) r | None => PBad end
+        else if byte_eqb h "L"%byte then pbind (prep (parse_tv f) (parse_nat rest) r) (fun xs r1 => POk (VArr xs) r1)
+        else if byte_eqb h "T"%byte then
+          pbind (prep (fun tk => match tk with
+                                 | (_ :: k) :: r1 => pbind (parse_tv f r1) (fun x r2 => POk (unhex k, x) r2)
+                                 | _ => PBad end) (parse_nat rest) r) (fun es r1 => POk (VTab es) r1)
+        else PBad
+      end
+    end
+  end.
+
+Definition show_dec (r : result sval) : bytes :=
+  match r with
+  | Ok v => str "ok:" ++ show_sval v
+  | Err EUnmodelled => str "*"
+  | Err _ => str "err"
+  end.
+
+Definition doc_routes_line (t : ty) (x : tomlval) : list bytes :=
+  [str "t=" ++ show_dec (decode R_t t x); str "e=" ++ show_dec (decode R_e t x); str "esl=" ++ show_dec (decode R_esl t x);
+   str "edoc=" ++ show_dec (decode R_edoc t x); str "eim=" ++ show_dec (decode R_eim t x);
+   str "tval=" ++ show_dec (decode R_tval t x); str "ttab=" ++ show_dec (decode R_ttab t x);
+   str "efs=" ++ show_dec (decode R_efs t x)].
+Definition val_routes_line (t : ty) (x : tomlval) : list bytes :=
+  [str "tvd=" ++ show_dec (decode R_tvd t x); str "evd=" ++ show_dec (decode R_evd t x);
+   str "tvdval=" ++ show_dec (decode R_tvdval t x)].
+
+Definition cmd_routes (tys tree : bytes) : bytes :=
+  let tt := split_on ","%byte tys in
+  let xt := split_on ","%byte tree in
+  match parse_ty (S (List.length tt)) tt, parse_tv (S (List.length xt)) xt with
+  | PUnmodelled, _ | _, PUnmodelled => str "-"
+  | POk t [], POk x [] =>
+    (* the document text is rendered from the tree when it is a table, else it is the empty document *)
+    let doc := match x with VTab _ => x | _ => VTab [] end in
+    join (str " ") (str "valid=*" :: doc_routes_line t doc ++ val_routes_line t x)
+  | _, _ => str "BADCASE"
+  end.
+
+Definition show_head (name : string) (r : result tomlval) : bytes :=
+  str name ++ str "=" ++ match r with Ok _ => str "ok:*" | Err e => str "err(" ++ show_err e ++ str ")" end.
+
+Definition cmd_routes_ser (tys vals : bytes) : bytes :=
+  let tt := split_on ","%byte tys in
+  let vt := split_on ","%byte vals in
+  match parse_ty (S (List.length tt)) tt, parse_val (S (List.length vt)) vt with
+  | PUnmodelled, _ | _, PUnmodelled => str "-"
+  | POk t [], POk v [] =>
+    let doc := ser_toml_root t v in
+    let val := ser_value_text t v in
+    join (str " ")
+         ([show_head "doc" doc; show_head "val" val]
+          ++ match doc with Ok x => str "valid=*" :: doc_routes_line t x | Err _ => [str "valid=na"] end
+          ++ match val with Ok x => val_routes_line t x | Err _ => [] end)
+  | _, _ => str "BADCASE"
+  end.
+
+Definition show_tvres (name : string) (r : result tomlval) : bytes :=
+  str name ++ str "=" ++ match r with Ok x => str "ok:" ++ show_tv x | Err e => str "err(" ++ show_err e ++ str ")" end.
+
+Definition cmd_tryfrom (tys vals : bytes) : bytes :=
+  let tt := split_on ","%byte tys in
+  let vt := split_on ","%byte vals in
+  match parse_ty (S (List.length tt)) tt, parse_val (S (List.length vt)) vt with
+  | PUnmodelled, _ | _, PUnmodelled => str "-"
+  | POk t [], POk v [] =>
+    let text := ser_toml_root t v in
+    join (str " ")
+         [show_tvres "val" (tv_ser t v);
+          show_tvres "txt" (rbind text (fun x => match to_toml_value x with Ok y => Ok y | Err _ => Err EDe end));
+          show_tvres "tab" (tv_ser_table t v);
+          show_tvres "ttxt" (rbind text (fun x => match to_toml_table x with Ok y => Ok y | Err _ => Err EDe end))]
+  | _, _ => str "BADCASE"
+  end.
+
 Definition cmd_consts : bytes :=
   str "dt_name=" ++ hexs DT_NAME ++ str " dt_field=" ++ hexs DT_FIELD ++ str " spanned_name=" ++ hexs SPANNED_NAME.
 
@@ -300,6 +395,9 @@ Definition run_cmd (name : bytes) (args : list bytes) : bytes :=
        | [tys; vals] =>
          if is name "ser" then cmd_ser tys vals
          else if is name "typed" then cmd_typed tys vals
+         else if is name "routes_ser" then cmd_routes_ser tys vals
+         else if is name "tryfrom" then cmd_tryfrom tys vals
          else str "unknown-command"
-       | _ => str "bad-args"
+       | [tys; _; _; tree] => if is name "routes" then cmd_routes tys tree else str "unknown-command"
+       | _ => if is name "routes" then str "-" else str "bad-args"
        end.
